@@ -7,6 +7,7 @@ import (
 	"net"
 	"os"
 	"sync"
+	"syscall"
 
 	acracensor "github.com/cossacklabs/acra/acra-censor"
 	"github.com/cossacklabs/acra/cmd/acra-server/common"
@@ -66,15 +67,6 @@ func (f *capFactory) New(clientID []byte, s base.ClientSession) (base.Proxy, err
 
 var registryOnce sync.Once
 
-func freePort() int {
-	l, err := net.Listen("tcp", "127.0.0.1:0")
-	if err != nil {
-		panic(err)
-	}
-	defer l.Close()
-	return l.Addr().(*net.TCPAddr).Port
-}
-
 // SetDialect sets Acra's process-global SQL dialect (PostgreSQL and MySQL phases must not overlap).
 func SetDialect(useMySQL bool) {
 	var d dialect.Dialect
@@ -109,7 +101,24 @@ func Start(o Opts) (*Acra, error) {
 	cfg.ConnectionWrapper = &network.RawConnectionWrapper{ClientID: o.ClientID}
 	cfg.SetKeyStore(o.KS)
 	cfg.SetTableSchema(schema)
-	port := freePort()
+	// The listening socket is created here and handed to AcraServer as a file descriptor (its graceful-restart path),
+	// so the port is bound from the start and cannot be taken by anybody else in between.
+	ln, err := net.Listen("tcp", "127.0.0.1:0")
+	if err != nil {
+		return nil, err
+	}
+	port := ln.Addr().(*net.TCPAddr).Port
+	lf, err := ln.(*net.TCPListener).File()
+	if err != nil {
+		ln.Close()
+		return nil, err
+	}
+	fd, err := syscall.Dup(int(lf.Fd()))
+	lf.Close()
+	ln.Close()
+	if err != nil {
+		return nil, err
+	}
 	cfg.SetAcraConnectionString(fmt.Sprintf("tcp://127.0.0.1:%d", port))
 	censor := acracensor.NewAcraCensor()
 	if o.CensorYAML != "" {
@@ -152,7 +161,7 @@ func Start(o Opts) (*Acra, error) {
 	a.server = server
 	ctx, cancel := context.WithCancel(context.Background())
 	a.cancel = cancel
-	go server.Start(ctx)
+	go server.StartFromFileDescriptor(ctx, uintptr(fd))
 	return a, nil
 }
 
